@@ -66,7 +66,7 @@ def _node2(sel: int, va: int, vb: int):
     return d, True
 
 
-@obligation(prop="C18", sites=("merged",), encodes=ENC_MERGE, budget={"quick": 150, "thorough": 400},
+@obligation(prop="C18", sites=("merged",), encodes=ENC_MERGE, budget={"quick": 300, "thorough": 600},
             what="combine_trees == reference merge and pure; two top-level keys, nested maps over two keys, "
                  "overlapping and disjoint key sets, map/non-map conflicts")
 def merge_two_keys(ba: int, bb: int, ca: int, cb: int, v1: int, v2: int, v3: int, v4: int) -> bool:
